@@ -361,6 +361,15 @@ func c03Run(c *fw.Ctx) {
 			c.Sample(map[string]any{"pipeline": []string{it.Label}, "bytes": trunc(it.Bytes, 80), "scripts": "whole, every 2-way split, 1-byte"})
 		}
 		scripts(cs, len(it.Bytes), true)
+		if it.Kind == "handler-error" {
+			// "a handler error becomes an error reply and leaves the connection usable"
+			c.Eval()
+			c.Nontrivial()
+			sr := solo(concat(it.Bytes, grammar.Encode([]string{"PING"})))
+			if sr.Crash == "" && (len(sr.Reply) != 2 || !sr.Reply[0].IsError() || !sr.Reply[1].Equal(resp.S("PONG"))) {
+				c.Violation("C03|"+it.Label[:strings.IndexByte(it.Label, '|')]+"|handler-error|handler-error-not-reported", fmt.Sprintf("the handler failed for this request, the replies to it and to the PING behind it are %s", valuesString(sr.Reply)), cs)
+			}
+		}
 	}
 	// pairs and triples over the representatives
 	for _, a := range reps {
